@@ -48,3 +48,8 @@ pub broadcast proof fn axiom_str_borrowed_val<'a, V>(m: Map<&'a str, V>, k: &'a 
     ensures #[trigger] vstd::std_specs::hash::maps_borrowed_key_to_value::<&'a str, V, str>(m, k, v) == (m.contains_key(k) && m[k] == v),
 {}
 pub broadcast group str_key_model { axiom_str_borrowed_key, axiom_str_borrowed_val }
+// A-STD (trusted): a Vec never holds more than usize::MAX elements
+#[verifier::external_body]
+pub proof fn axiom_vec_len_bound<T>(v: &Vec<T>)
+    ensures v@.len() <= usize::MAX
+{}
